@@ -90,7 +90,7 @@ def profiler_none_and_nan(w):
     return None
 
 
-WITNESS = {'profiler-none-and-nan-two-values': profiler_none_and_nan, 'suffix-filter-unsafe': suffix_filter_unsafe, 'gray-pair-njobs': gray_pair_njobs,
+WITNESS = {'suffix-filter-unsafe': suffix_filter_unsafe, 'gray-pair-njobs': gray_pair_njobs,
            'series-to-str-inplace-numeric': series_inplace_numeric}
 
 
